@@ -926,6 +926,8 @@ func (cacheStream) Execute(c Case) {
 			// injected into before - names every device as unresolvable and leaves that spec as it is
 			late, _ := c["latedirs"].(bool)
 			if len(req) > 0 && !auto && !late { // (a watching cache learns of the removal by itself, in its own time: C11)
+				target = mk()
+				_, _ = cache.InjectDevices(target, req...) // the most recent injection went into this very spec
 				_ = os.RemoveAll(filepath.Join(cacheRoot, "phys"))
 				_ = os.Remove(filepath.Join(cacheRoot, "asfile.json"))
 				_ = cache.Refresh()
